@@ -63,11 +63,17 @@ class CallGraph:
     # ------------------------------------------------------------------
     def _build(self):
         F = self.F
+        self.impl_by_self = defaultdict(list)
+        self.impl_names = []
         for name in F.bodies:
             m = re.match(r"^<(.+) as (.+)>::([A-Za-z0-9_]+)$", name)
             if m:
                 trait = re.sub(r"<.*>$", "", m.group(2))
                 self.impl_index[trait + "::" + m.group(3)].append(name)
+                self.impl_names.append(name)
+                st = re.sub(r"<.*>$", "", m.group(1).replace("&", "").strip())
+                st = re.sub(r"^'[a-z_0-9]+ ", "", st)
+                self.impl_by_self[st].append(name)
         # pass 1: closure flows (which closures get unsized to which dyn type)
         for name, b in F.bodies.items():
             self._closure_flow(name, b)
@@ -108,6 +114,16 @@ class CallGraph:
                         continue
                     # Fn/FnMut/FnOnce::call on a type parameter: the closure is an `immediate` edge of whoever created it
                 self.ext_calls[name].append((p, bi, line, c))
+                for cb in self._callbacks(p or "", f.get("substs") or "", f.get("o") or ""):
+                    self.edges[name].append(("callback", cb, bi, line))
+            # fn items reified to fn pointers (format_args!, map(fn_name), ...) may run while this body runs
+            for st in bl["s"]:
+                if st[0] == "A" and st[2][0] == "Cast" and st[2][2][0] == "F" and st[2][2][1] in F.bodies:
+                    self.edges[name].append(("callback", st[2][2][1], bi, st[3] if len(st) > 3 else None))
+            if t[0] == "call":
+                for a in t[1]["args"]:
+                    if a[0] == "F" and a[1] in F.bodies:
+                        self.edges[name].append(("callback", a[1], bi, t[1].get("line")))
         # closures: immediate edges
         for clo, creator in self.creator.items():
             if clo not in self.deferred and clo in F.bodies:
@@ -121,6 +137,74 @@ class CallGraph:
                     self.unresolved.append((name, sig, line))
                 for clo in tg:
                     self.edges[name].append(("dyn", clo, bi, line))
+
+    CALLBACK_TRAITS = [
+        (("clone", "to_vec", "to_owned", "cloned", "extend_from_slice", "resize", "repeat"), ["core::clone::Clone>::clone"]),
+        (("eq", "ne", "contains", "dedup", "position", "starts_with", "ends_with", "assert_failed"), ["core::cmp::PartialEq>::eq"]),
+        (("cmp", "sort", "max", "min", "lt", "le", "gt", "ge", "partial_cmp", "binary_search", "is_sorted"), ["core::cmp::PartialOrd>::partial_cmp", "core::cmp::Ord>::cmp", "core::cmp::PartialEq>::eq"]),
+        (("sum",), ["core::ops::arith::Add>::add"]), (("product",), ["core::ops::arith::Mul>::mul"]),
+        (("fmt", "to_string", "format", "write_fmt", "print", "panic_fmt", "expect", "unwrap", "unwrap_err", "expect_err"),
+         ["core::fmt::Display>::fmt", "core::fmt::Debug>::fmt"]),
+        (("default", "unwrap_or_default", "take", "or_default"), ["core::default::Default>::default"]),
+        (("hash", "insert", "get", "contains_key", "remove", "entry"), ["core::hash::Hash>::hash", "core::cmp::PartialEq>::eq", "core::cmp::Ord>::cmp"]),
+        (("drop", "drop_in_place", "clear", "truncate", "pop"), ["core::ops::drop::Drop>::drop"]),
+    ]
+
+    def _callbacks(self, p, substs, orig):
+        """local trait impls that an external generic function may call back into (std blanket impls and container algorithms)"""
+        out = []
+        F = self.F
+        m = re.findall(r"[A-Za-z_][A-Za-z0-9_:]*", substs)
+        tys = [x for x in m if x.startswith("dmntk_")]
+        leaf = p.split("::")[-1]
+        if orig.endswith("convert::Into::into") or p.endswith("convert::Into<U>>::into"):
+            parts = self._split_substs(substs)
+            if len(parts) >= 2:
+                out += self._impls("<%s as core::convert::From<%s>>::from" % (parts[1], parts[0]))
+        if orig.endswith("convert::TryInto::try_into") or p.endswith("convert::TryInto<U>>::try_into"):
+            parts = self._split_substs(substs)
+            if len(parts) >= 2:
+                out += self._impls("<%s as core::convert::TryFrom<%s>>::try_from" % (parts[1], parts[0]))
+        if leaf == "parse" and "str" in p:
+            parts = self._split_substs(substs)
+            if parts:
+                out += self._impls("<%s as core::str::traits::FromStr>::from_str" % parts[0])
+        if not tys:
+            return out
+        for names, suffixes in self.CALLBACK_TRAITS:
+            if leaf in names or any(leaf.startswith(nm + "_") for nm in names):
+                for t in tys:
+                    for sfx in suffixes:
+                        for cand in self.impl_by_self.get(t, ()):
+                            if cand.endswith(sfx) or (sfx.split(">::")[0] in cand and cand.endswith("::" + sfx.split("::")[-1])):
+                                out.append(cand)
+        return out
+
+    def _split_substs(self, s):
+        s = s.strip()
+        if s.startswith("[") and s.endswith("]"):
+            s = s[1:-1]
+        parts, depth, cur = [], 0, ""
+        for ch in s:
+            if ch in "<([":
+                depth += 1
+            elif ch in ">)]":
+                depth -= 1
+            if ch == "," and depth == 0:
+                parts.append(cur.strip())
+                cur = ""
+            else:
+                cur += ch
+        if cur.strip():
+            parts.append(cur.strip())
+        return [re.sub(r"'[a-z_0-9]+ ", "", x) for x in parts]
+
+    def _impls(self, name):
+        if name in self.F.bodies:
+            return [name]
+        # tolerate reference / lifetime decorations
+        bare = name.replace("&", "")
+        return [n for n in self.impl_names if n.replace("&", "").replace("'a ", "").replace("'_ ", "") == bare]
 
     def _closure_flow(self, name, b):
         F = self.F
@@ -185,7 +269,7 @@ class CallGraph:
                 self.coerced_by_sig[sig].add(clo)
 
     # ------------------------------------------------------------------
-    def reach(self, roots, kinds=("call", "trait", "immediate", "dyn")):
+    def reach(self, roots, kinds=("call", "trait", "immediate", "dyn", "callback")):
         """reachable bodies with a predecessor map (for path reporting)"""
         pred = {}
         seen = set()
